@@ -183,6 +183,24 @@ pub fn fix_operands(op: &Op, a: &mut Mat, b: &mut Mat, link: u8) {
             }
             _ => {}
         },
+        // equality of operands of DIFFERENT shape must be false even when the two operands hold the very same
+        // numbers in storage order: b becomes a reshaped view of a's row-major buffer, of a's column-major
+        // buffer, or both become constant matrices of equal element count
+        Op::Eq | Op::ApproxEq { .. } if a.r * a.c > 1 && link % 4 != 3 => {
+            let (r2, c2) = if a.r != a.c { (a.c, a.r) } else { (1, a.r * a.c) };
+            match link % 4 {
+                0 => *b = Mat { r: r2, c: c2, d: a.d.clone() },
+                1 => {
+                    let colbuf: Vec<f64> = (0..a.r * a.c).map(|k| a.at(k % a.r, k / a.r)).collect();
+                    *b = Mat::from_fn(r2, c2, |i, j| colbuf[j * r2 + i]);
+                }
+                _ => {
+                    let v = a.d[0];
+                    *a = a.map(|_| v);
+                    *b = Mat::from_fn(r2, c2, |_, _| v);
+                }
+            }
+        }
         _ => {}
     }
 }
